@@ -746,6 +746,12 @@ def export_pool(p):
         for f0 in Fq:
             for f1 in Fq:
                 pool.append(("MultiLineString", [[[a, f0], [b, f1]], [[a, f1], [b, f0]]]))
+    # line strings whose time (frequency) extent is reached at an INTERIOR vertex: only the end points of a line are ordered in
+    # time, so the exported bounds must come from all vertices, not from the first and the last one
+    for a, b in strict_pairs(T):
+        for m in T:
+            if m > b or m < a:
+                pool.append(("LineString", [[a, Fq[0]], [m, Fq[-1]], [b, Fq[0]]]))
     for k, c in pool:
         assert k is None or gm.valid(k, c), (k, c)
     return pool
